@@ -1,6 +1,6 @@
 """Which extracted facts each property's models and theorems rest on."""
 
-RUNTIME_CORE = ["sends", "recvs", "closes", "makechans", "gostmts", "ctxchecks", "calls", "sendcalls", "el_head", "el_tail",
+RUNTIME_CORE = ["sends", "recvs", "closes", "makechans", "gostmts", "ctxchecks", "calls", "sendcalls", "el_head", "el_tail", "el_cases",
                 "body_Program_Send", "body_Program_handleCommands"]
 
 FACTMAP = {
@@ -24,7 +24,7 @@ FACTMAP = {
             "el_case_enableReportFocusMsg", "el_case_disableReportFocusMsg", "el_case_clearScreenMsg"],
     "C13": ["sends", "recvs", "closes", "makechans", "ctxchecks", "body_Program_Send", "body_Program_Quit", "body_Program_Kill",
             "body_Program_Wait", "body_Program_Println", "body_Program_Printf", "order_Program_shutdown", "order_Program_Run"],
-    "C16": ["el_head", "el_tail", "calls", "sendcalls", "body_WithFilter", "sends", "body_Program_handleSignals", "body_Program_Send"],
+    "C16": ["el_head", "el_tail", "el_cases", "calls", "sendcalls", "body_WithFilter", "sends", "body_Program_handleSignals", "body_Program_Send"],
     "C17": ["order_Program_exec", "order_Program_ReleaseTerminal", "order_Program_RestoreTerminal", "el_case_execMsg",
             "order_Program_restoreTerminalState", "body_Program_initCancelReader", "order_standardRenderer_stop",
             "order_standardRenderer_start", "body_Program_readLoop", "body_Program_waitForReadLoop", "body_standardRenderer_halt"],
